@@ -8,6 +8,7 @@ R5 custom headers of read / do_readdir
 R6 notification messages
 """
 import json
+import re
 import os
 
 from pyfbr import core, vf
@@ -37,10 +38,57 @@ def run(ctx):
         ctx.run_rule("R4-dirent", r4_dirent, F, table)
         ctx.run_rule("R5-custom-headers", r5_headers, F, table)
         ctx.run_rule("R6-notify", r6_notify, F, table)
+        ctx.run_rule("R1-layout", r7_reply_layouts, F)
     finally:
         vf.NOUPD[0] = False
         vf.NOCAST[0] = False
     ctx.assumptions += ["wire struct layouts are the kernel's (C13)", "payload bytes produced by the filesystem are not examined"]
+
+
+# reply sites whose form depends on the negotiated protocol version: (handler, reply call) -> required version facts (normal form)
+VERSION_ARMS = {
+    ("lookup", "reply_error"): ["Lt(ArcSwapAny::load(self.vers).minor, KERNEL_MINOR_VERSION_LOOKUP_NEGATIVE_ENTRY_ZERO)"],
+}
+
+
+def version_arms(ctx, F, rule, handlers, frames=None):
+    """A reply whose form depends on the protocol version depends on it exactly as the protocol says: before 7.4 a lookup
+    result with inode 0 is answered ENOENT, from 7.4 on it is a cacheable negative entry. INIT's arms are decided by C12.R3.
+    `frames` (C20): [(operation name, body, VF, parent fn)] for the async handlers, whose code lives in a coroutine body."""
+    found = {}
+    items = frames if frames is not None else [(h.name, h, vf.VF(h), h) for h in sorted(handlers, key=lambda b: b.line)]
+    for (name, h, v, parent) in items:
+        if name == "init":
+            continue
+        for c in h.calls():
+            if not (c.name.startswith("reply_") or c.name.startswith("async_reply_")) or c.bb not in h.reachable() or h.is_cleanup(c.bb):
+                continue
+            g = [(vf.render(x, parent, short=True, vfx=v), l) for (x, l, u) in v.guards(c.bb)]
+            gv = sorted(t for (t, l) in g if l != 0 and re.search(r"\b(minor|major|vers)\b", t)) + \
+                sorted("!" + t for (t, l) in g if l == 0 and re.search(r"\b(minor|major|vers)\b", t))
+            cn = c.name.replace("async_", "")
+            if gv and (name, cn) == ("lookup", "reply_error") and not any(l != 0 and re.match(r"^Eq\(0, .*lookup\(.*\.inode\)$", t) for (t, l) in g):
+                gv.append("(not restricted to a result with inode 0)")
+            if gv:
+                found.setdefault((name, cn), []).append((gv, c))
+    for key, want in VERSION_ARMS.items():
+        got = found.pop(key, [])
+        ctx.check(rule, "version-arm/%s/%s" % key, len(got) == 1 and got[0][0] == want,
+                  "%s: the version-dependent %s must be taken exactly under %s; found %s" % (key[0], key[1], want, [x[0] for x in got]),
+                  loc=(got[0][1].loc() if got else ""))
+    for key, got in sorted(found.items()):
+        ctx.violation(rule, "version-arm/%s/%s" % key, "%s: %s depends on the protocol version (%s); no such dependence is part of the reply format" % (key[0], key[1], got[0][0]), loc=got[0][1].loc())
+
+
+REPLY_STRUCTS = {"Attr", "Kstatfs", "FileLock", "Dirent", "Direntplus", "OutHeader", "IoctlIovec"}
+
+
+def r7_reply_layouts(ctx, F):
+    """Field offsets/sizes of every struct that goes out in a reply equal the kernel's (C13.R1 restricted to reply structs):
+    with fields assigned by name, a reordered declaration puts the right value at the wrong wire offset."""
+    from rules import c13
+    c13.layout_subset(ctx, F, lambda n: n in REPLY_STRUCTS or n.endswith("Out"))
+    ctx.floor("R1-layout", 100)
 
 
 def result_roots(v, h):
@@ -157,6 +205,7 @@ def r1_replies(ctx, F, table):
     for key in rows:
         if key not in seen:
             ctx.violation("R1-reply-provenance", key, "reply site %s of the table no longer exists" % key)
+    version_arms(ctx, F, "R1-reply-provenance", common.handler_bodies(F))
     # handle_attr_result itself
     har = [b for b in F.fns.values() if b.name == "handle_attr_result" and b.self_adt == common.SRVCTX]
     if len(har) != 1:
